@@ -226,21 +226,24 @@ type c06Pending struct {
 }
 
 type c06Run1 struct {
-	e       *Env
-	c       int
-	w       *c06World
-	A, B, C *c06Replica
-	keys    *c06Keys
-	now     time.Time
-	obs     c06Obs
-	seqs    map[string]uint64 // per block: next sequence per account
-	pending []c06Pending
-	voted   map[uint64]bool
-	recs    []c06Rec
-	intern  c06Intern
-	sig     strings.Builder
-	ticks   int
-	postCtx sdk.Context // the observed replica after the block (for the term builders)
+	e        *Env
+	c        int
+	w        *c06World
+	A, B, C  *c06Replica
+	keys     *c06Keys
+	now      time.Time
+	obs      c06Obs
+	seqs     map[string]uint64 // per block: next sequence per account
+	pending  []c06Pending
+	voted    map[uint64]bool
+	recs     []c06Rec
+	intern   c06Intern
+	sig      strings.Builder
+	ticks    int
+	postCtx  sdk.Context // the observed replica after the block (for the term builders)
+	lastSeq  uint64      // sequence number used by the transaction built last
+	sameUser int         // generator: the next transactions come from the sender of the last one
+	lastUser int
 }
 
 func (r *c06Run1) account(ctx sdk.Context, addr sdk.AccAddress) (uint64, uint64) {
@@ -255,7 +258,13 @@ func (r *c06Run1) account(ctx sdk.Context, addr sdk.AccAddress) (uint64, uint64)
 	return acc.GetAccountNumber(), seq
 }
 
-func (r *c06Run1) bump(addr sdk.AccAddress, seq uint64) { r.seqs[addr.String()] = seq + 1 }
+// every signed transaction takes the next sequence number of its signer, whether or not it will be admitted: the
+// transactions of one signer that the ante handler admitted are then exactly those whose number lies below the
+// signer's sequence after the block
+func (r *c06Run1) bump(addr sdk.AccAddress, seq uint64) {
+	r.seqs[addr.String()] = seq + 1
+	r.lastSeq = seq
+}
 
 // build turns a transaction description into bytes (signed with the sequence numbers of the committed
 // state) and the model's transaction term builder (which needs the result)
@@ -264,6 +273,7 @@ type c06Built struct {
 	kind   string
 	term   func(res *abci.ExecTxResult) string
 	signer sdk.AccAddress
+	seq    uint64 // the sequence number / nonce the transaction was signed with
 }
 
 func (r *c06Run1) build(ctx sdk.Context, t *c06Tx, blockTime time.Time) c06Built {
@@ -381,6 +391,7 @@ func (r *c06Run1) build(ctx sdk.Context, t *c06Tx, blockTime time.Time) c06Built
 		if err != nil {
 			panic(err)
 		}
+		r.lastSeq = seq + 7
 		return c06Built{bz: bz, kind: t.Kind, term: other, signer: addr}
 	case "garbage":
 		rng := rand.New(rand.NewSource(int64(t.Target)))
@@ -550,6 +561,13 @@ func (r *c06Run1) genTx(dry sdk.Context, blockTime time.Time) c06Tx {
 		kind = "evm-erc20" // no Turnstile yet (CSR is enabled later by governance)
 	}
 	t := c06Tx{Kind: kind, User: e.Pick(csUsers), Target: e.Pick(16)}
+	forceUser := -1
+	if r.sameUser > 0 && r.lastUser >= 0 {
+		forceUser = r.lastUser
+		r.sameUser--
+		t.User = forceUser
+	}
+	defer func() { r.lastUser = t.User }()
 	switch kind {
 	case "swap":
 		now := TimeNs(blockTime)
@@ -575,6 +593,9 @@ func (r *c06Run1) genTx(dry sdk.Context, blockTime time.Time) c06Tx {
 				break
 			}
 		}
+		if forceUser >= 0 {
+			op.Sender = forceUser
+		}
 		// keep the effect on the dry-run branch so that later transactions of the block see it
 		w.cs.exec(dry, op)
 		sec := blockTime.Unix()
@@ -597,6 +618,27 @@ func (r *c06Run1) genTx(dry sdk.Context, blockTime time.Time) c06Tx {
 		t.Gas = []uint64{300_000, 400_000, 600_000}[e.Pick(3)]
 		if e.Chance(0.05) {
 			t.Gas = 30_000 // too little for a contract call: out of gas
+		}
+		if e.Chance(0.04) {
+			// a gas price nobody can pay: the ante handler refuses the transaction, its nonce stays unused and every
+			// later transaction of the same sender in this block is refused for its sequence number
+			t.GasMul = 1_000_000_000_000
+			r.sameUser = 2
+			e.Stats.Count("shape:evm-unaffordable-then-same-sender")
+		} else {
+			// otherwise a sender who can pay for the gas
+			base := r.C.app.FeeMarketKeeper.GetBaseFee(dry)
+			if base == nil || base.Sign() == 0 {
+				base = big.NewInt(1_000_000_000)
+			}
+			cost := new(big.Int).Mul(new(big.Int).Mul(base, big.NewInt(t.GasMul)), new(big.Int).SetUint64(t.Gas))
+			for try := 0; try < csUsers; try++ {
+				bal := r.C.app.BankKeeper.GetBalance(dry, c06Acc(r.keys.users[t.User%csUsers]), c06Denom).Amount.BigInt()
+				if bal.Cmp(cost) >= 0 {
+					break
+				}
+				t.User = (t.User + 1) % csUsers
+			}
 		}
 	}
 	return t
@@ -679,6 +721,9 @@ func c06RunCase(e *Env, c int, kase *c06Case, replay bool) {
 	if !replay {
 		probe := c06CsWorld(nil, keys)
 		kase.Gen = c06GenGenesis(e, probe)
+		// structural variants are stratified, not drawn: every third case starts with CSR disabled and no Turnstile,
+		// so that every run (even a short one) contains the late-enabling path
+		kase.Gen.CsrLate = c%3 == 1
 	}
 	A, _ := c06Start("A", keys, kase.Gen)
 	RB, _ := c06Start("B", keys, kase.Gen)
@@ -765,6 +810,7 @@ func c06RunCase(e *Env, c int, kase *c06Case, replay bool) {
 				blk.Txs = append(blk.Txs, t)
 			}
 			b := r.build(ctx, &t, r.now)
+			b.seq = r.lastSeq
 			built = append(built, b)
 			txs = append(txs, b.bz)
 			e.Stats.Count("tx:" + b.kind)
@@ -816,7 +862,17 @@ func c06RunCase(e *Env, c int, kase *c06Case, replay bool) {
 		var txTerms []string
 		for i, b := range built {
 			tr := resA.TxResults[i]
-			txTerms = append(txTerms, b.term(tr))
+			term := b.term(tr)
+			if tr.Code != 0 && b.signer != nil && !strings.HasPrefix(b.kind, "evm-") {
+				// not admitted by the ante handler (its sequence number was not consumed: an earlier transaction of
+				// the signer broke the chain, or the number was wrong): sequence numbers and signatures are outside the
+				// model, for which such a transaction is an opaque rejected one
+				if acc := C.app.AccountKeeper.GetAccount(r.postCtx, b.signer); acc == nil || acc.GetSequence() <= b.seq {
+					term = App("TxOther", "false")
+					e.Stats.Count("not-admitted-by-ante:" + b.kind)
+				}
+			}
+			txTerms = append(txTerms, term)
 			rec.codes = append(rec.codes, B(tr.Code == 0))
 			if tr.Code == 0 {
 				e.Stats.Count("accepted:" + b.kind)
@@ -936,7 +992,7 @@ func c06RunCase(e *Env, c int, kase *c06Case, replay bool) {
 
 func c06Run(e *Env) {
 	e.Header("From Coq Require Import ZArith List Bool.\nFrom Canto Require Import Model.Epochs Model.Coinswap Model.Chain Check.Common Check.CoinswapCheck Check.ChainCheck.\nFrom Canto Require Model.Inflation Model.Csr Model.Authority.\nImport ListNotations.\nOpen Scope Z_scope.\n")
-	e.Stats.Rule = "case = generated genesis (coinswap params, user funds, inflation on/off, epochs per period 1..30, staking/community split, optional hour epoch, csr share; in a third of the cases CSR is DISABLED in genesis with no prepared Turnstile: a governance proposal enables it and csr's own BeginBlock deploys the Turnstile inside a block) on a chain with a genuine bonded genesis validator + a history of 14..28 blocks (quick) whose times step by seconds / hours / exactly-at, 1ns before, 1ns after an epoch end / days / weeks, each with 0..6 signed transactions: coinswap swaps and liquidity, bank sends, ConvertCoin/ConvertERC20, Ethereum transactions (ERC20 transfer to the erc20 module = erc20 hook, contract creation that registers with the Turnstile, calls of registered contracts = csr fee split, register through the CSR test contract), governance proposals (submit, vote, execution in EndBlocker) updating coinswap/inflation/csr/erc20 params, govshuttle lending-market proposals (the first deploys the ProposalStore contract in the EndBlocker) and erc20 RegisterCoin proposals (contract deployment in the EndBlocker), user-signed MsgUpdateParams, wrong-sequence and garbage bytes; the SAME bytes are executed through FinalizeBlock+Commit on replica A (plain), B (NewCanto on the same DB + LoadLatestVersion after every block), C (gRPC queries of every Canto module incl. historical heights and proofs, eth_call/estimateGas, CheckTx new/recheck of valid, corrupted and garbage transactions, Simulate, Prepare/ProcessProposal before every block) D (fresh application afterwards) and, in half of the cases, E (restarted from its database exactly ONCE at a random boundary); AppHash, result (code, codespace, data, gas) and exported genesis compared at every height; the projection (read on C; A and D see nothing but blocks) compared with the node model; non-trivial = at least one accepted transaction or epoch tick; distinct by hash of accepted kinds and ticks"
+	e.Stats.Rule = "case = generated genesis (coinswap params, user funds, inflation on/off, epochs per period 1..30, staking/community split, optional hour epoch, csr share; in every third case (stratified) CSR is DISABLED in genesis with no prepared Turnstile: a governance proposal enables it and csr's own BeginBlock deploys the Turnstile inside a block) on a chain with a genuine bonded genesis validator + a history of 14..28 blocks (quick) whose times step by seconds / hours / exactly-at, 1ns before, 1ns after an epoch end / days / weeks, each with 0..6 signed transactions: coinswap swaps and liquidity, bank sends, ConvertCoin/ConvertERC20, Ethereum transactions (ERC20 transfer to the erc20 module = erc20 hook, contract creation that registers with the Turnstile, calls of registered contracts = csr fee split, register through the CSR test contract), governance proposals (submit, vote, execution in EndBlocker) updating coinswap/inflation/csr/erc20 params, govshuttle lending-market proposals (the first deploys the ProposalStore contract in the EndBlocker) and erc20 RegisterCoin proposals (contract deployment in the EndBlocker), user-signed MsgUpdateParams, wrong-sequence and garbage bytes, and (rarely) an Ethereum transaction with a gas price nobody can pay followed by transactions of the same sender (refused by the ante handler for their sequence number); the SAME bytes are executed through FinalizeBlock+Commit on replica A (plain), B (NewCanto on the same DB + LoadLatestVersion after every block), C (gRPC queries of every Canto module incl. historical heights and proofs, eth_call/estimateGas, CheckTx new/recheck of valid, corrupted and garbage transactions, Simulate, Prepare/ProcessProposal before every block) D (fresh application afterwards) and, in half of the cases, E (restarted from its database exactly ONCE at a random boundary); AppHash, result (code, codespace, data, gas) and exported genesis compared at every height; the projection (read on C; A and D see nothing but blocks) compared with the node model; non-trivial = at least one accepted transaction or epoch tick; distinct by hash of accepted kinds and ticks"
 	e.ShardSize = 1
 	if e.Replay == nil {
 		c06StaticScan(e)
